@@ -1,4 +1,296 @@
-import Ahbicht.Model.Val
+import Ahbicht.Lemmas.ValTables
+/-!
+# C16 — an invalid expression makes one node optional and never aborts validation
+-/
 namespace Ahbicht.Properties.C16
-theorem placeholder : True := trivial
+open Ahbicht
+
+/-- the result of evaluating the expression `Kann` -/
+def kannRes : NodeRes := .ok ⟨.KANN, some true, none, true, none⟩
+
+/-- replace every invalid expression by `Kann` -/
+def kannify : NodeRes → NodeRes
+  | .invalid _ => kannRes
+  | x => x
+
+def kannifyEntry (e : PoolEntry) : PoolEntry := { e with res := kannify e.res }
+
+def kannifyDE : DataElement → DataElement
+  | .free d res i v => .free d (kannify res) i v
+  | .pool d es i => .pool d (es.map kannifyEntry) i
+
+def kannifySeg (s : Segment) : Segment := { s with res := kannify s.res, des := s.des.map kannifyDE }
+
+mutual
+def kannifyGroup : Group → Group
+  | .mk d res gs ss => .mk d (kannify res) (kannifyGroups gs) (ss.map kannifySeg)
+def kannifyGroups : Groups → Groups
+  | .nil => .nil
+  | .cons g gs => .cons (kannifyGroup g) (kannifyGroups gs)
+end
+
+/-- discriminators of the groups, segments and free-text elements that carry an invalid expression -/
+def isInvalid : NodeRes → Bool
+  | .invalid _ => true
+  | _ => false
+
+def invalidDE : DataElement → List String
+  | .free d res _ _ => if isInvalid res then [d] else []
+  | .pool _ _ _ => []
+
+def invalidSeg (s : Segment) : List String := (if isInvalid s.res then [s.disc] else []) ++ s.des.flatMap invalidDE
+
+mutual
+def invalidGroup : Group → List String
+  | .mk d res gs ss => (if isInvalid res then [d] else []) ++ invalidGroups gs ++ ss.flatMap invalidSeg
+def invalidGroups : Groups → List String
+  | .nil => []
+  | .cons g gs => invalidGroup g ++ invalidGroups gs
+end
+
+/-- blank out what is reported for the nodes in `S` (only their discriminator and kind remain) -/
+def mask (S : List String) (o : Out) : Out :=
+  if S.contains o.disc then ⟨o.disc, o.isDataElement, .IS_OPTIONAL, none, none, none, none, none⟩ else o
+
+/-! ## helper lemmas -/
+
+theorem liftT_val (v : RVV) : liftT (.val v) = .ok v := rfl
+theorem ok_bind {ε α β} (a : α) (f : α → Except ε β) : (Except.ok a >>= f) = f a := rfl
+theorem error_bind {ε α β} (e : ε) (f : α → Except ε β) : ((Except.error e : Except ε α) >>= f) = .error e := rfl
+theorem map_ok {ε α β} (a : α) (f : α → β) : (Except.ok a : Except ε α).map f = .ok (f a) := rfl
+theorem map_error {ε α β} (e : ε) (f : α → β) : (Except.error e : Except ε α).map f = .error e := rfl
+theorem pure_eq_ok {ε α} (a : α) : (pure a : Except ε α) = .ok a := rfl
+
+theorem kann_own : ∀ soll, mapOwn (some true) .KANN soll = .val .IS_OPTIONAL := by decide
+
+theorem kann_combine : ∀ (p : Option RVV), okParent p = true → p ≠ some .IS_FORBIDDEN →
+    combine p .IS_OPTIONAL = .val .IS_OPTIONAL := by
+  intro p; cases p with
+  | none => decide
+  | some p => revert p; decide
+
+theorem segLevel_kann (p : Option RVV) (soll : Bool) (hp : okParent p = true) (hf : p ≠ some .IS_FORBIDDEN) :
+    segLevel kannRes p soll = .ok (.IS_OPTIONAL, none) := by
+  simp only [segLevel, kannRes, if_neg hf, kann_own, liftT_val, ok_bind, kann_combine p hp hf]
+  rfl
+
+/-- a successful segment-level status below an admissible parent is a base status -/
+theorem segLevel_base (res : NodeRes) (p : Option RVV) (soll : Bool) (hp : okParent p = true) (st : RVV) (h : Option String)
+    (hs : segLevel res p soll = .ok (st, h)) : st.isBase = true := by
+  unfold segLevel at hs
+  by_cases hf : p = some .IS_FORBIDDEN
+  · rw [if_pos hf] at hs
+    cases hs; rfl
+  · rw [if_neg hf] at hs
+    cases res with
+    | invalid msg => cases hs; rfl
+    | ok r =>
+      simp only at hs
+      cases hm : mapOwn r.fulfilled r.ind soll with
+      | val v =>
+        have hb := mapOwn_base _ _ _ _ hm
+        obtain ⟨v', hv', hb'⟩ := combine_base p v hp hf hb
+        rw [hm, liftT_val, ok_bind, hv', liftT_val, ok_bind] at hs
+        cases hs; exact hb'
+      | notImplemented => rw [hm] at hs; cases hs
+      | valueError => rw [hm] at hs; cases hs
+      | other => rw [hm] at hs; cases hs
+
+theorem segLevel_kannify (res : NodeRes) (p : Option RVV) (soll : Bool) (hp : okParent p = true) :
+    (∃ e, segLevel res p soll = .error e ∧ segLevel (kannify res) p soll = .error e) ∨
+    (∃ st h h', segLevel res p soll = .ok (st, h) ∧ segLevel (kannify res) p soll = .ok (st, h') ∧
+      st.isBase = true ∧ (isInvalid res = false → h = h')) := by
+  cases res with
+  | ok r =>
+    cases hs : segLevel (.ok r) p soll with
+    | error e => exact .inl ⟨e, rfl, hs⟩
+    | ok v =>
+      obtain ⟨st, h⟩ := v
+      exact .inr ⟨st, h, h, rfl, hs, segLevel_base _ _ _ hp _ _ hs, fun _ => rfl⟩
+  | invalid msg =>
+    by_cases hf : p = some .IS_FORBIDDEN
+    · refine .inr ⟨.IS_FORBIDDEN, none, none, ?_, ?_, rfl, fun _ => rfl⟩
+      · simp only [segLevel, if_pos hf]
+      · simp only [segLevel, if_pos hf]
+    · refine .inr ⟨.IS_OPTIONAL, some msg, none, ?_, ?_, rfl, ?_⟩
+      · simp only [segLevel, if_neg hf]
+      · exact segLevel_kann p soll hp hf
+      · intro h; cases h
+
+/-- congruence of `>>=` in `Except` up to maps on the results -/
+theorem bind_congr_map {ε α β γ δ} (m1 : α → γ) (m2 : β → δ) (x y : Except ε α) (f g : α → Except ε β)
+    (hxy : x.map m1 = y.map m1) (hfg : ∀ a b, m1 a = m1 b → (f a).map m2 = (g b).map m2) :
+    (x >>= f).map m2 = (y >>= g).map m2 := by
+  cases x with
+  | error e =>
+    cases y with
+    | error e' => simp only [map_error] at hxy; cases hxy; rfl
+    | ok b => simp only [map_error, map_ok] at hxy; cases hxy
+  | ok a =>
+    cases y with
+    | error e' => simp only [map_error, map_ok] at hxy; cases hxy
+    | ok b =>
+      simp only [map_ok] at hxy
+      simp only [ok_bind]
+      exact hfg a b (Except.ok.inj hxy)
+
+theorem mapM_congr_map {ε α β γ} (f g : α → Except ε β) (k : α → α) (m : β → γ) (l : List α)
+    (h : ∀ a ∈ l, (f a).map m = (g (k a)).map m) :
+    (l.mapM f).map (List.map m) = ((l.map k).mapM g).map (List.map m) := by
+  induction l with
+  | nil => rfl
+  | cons a l ih =>
+    simp only [List.map_cons, List.mapM_cons]
+    apply bind_congr_map m (List.map m) _ _ _ _ (h a (List.mem_cons_self ..))
+    intro b b' hb
+    apply bind_congr_map (List.map m) (List.map m) _ _ _ _ (ih (fun a ha => h a (List.mem_cons_of_mem _ ha)))
+    intro bs bs' hbs
+    simp only [pure_eq_ok, map_ok, List.map_cons, hb, hbs]
+
+theorem mask_segOut {res : NodeRes} (S : List String) (d : String) (st : RVV) (h h' : Option String)
+    (hh : isInvalid res = false → h = h') (hS : isInvalid res = true → S.contains d = true) :
+    mask S (segOut d st h) = mask S (segOut d st h') := by
+  cases hi : isInvalid res with
+  | false => rw [hh hi]
+  | true => simp only [mask, segOut, hS hi, if_true]
+
+theorem entryOffered_kannify (e : PoolEntry) : entryOffered (kannifyEntry e) = entryOffered e := by
+  obtain ⟨q, m, res⟩ := e
+  cases res <;> rfl
+
+/-- **C16 (the node itself).** A group or segment with an invalid expression (below a parent that is not forbidden) is reported
+optional with the reason as hint; a free-text element likewise. -/
+theorem C16_node_segment_level (msg : String) (p : Option RVV) (soll : Bool) (hp : p ≠ some .IS_FORBIDDEN) :
+    segLevel (.invalid msg) p soll = .ok (.IS_OPTIONAL, some msg) := by
+  simp only [segLevel, if_neg hp]
+
+theorem C16_node_freetext (d msg : String) (input vtype : Option String) (st : RVV) (soll : Bool) :
+    ∃ o, validateDataElement (.free d (.invalid msg) input vtype) st soll = .ok o ∧ o.status = .IS_OPTIONAL ∧ o.hints = some msg := by
+  exact ⟨_, rfl, rfl, rfl⟩
+
+/-- the children of the node see the same parent status as with `Kann` -/
+theorem C16_same_as_kann (p : Option RVV) (soll : Bool) (hp : okParent p = true) (hf : p ≠ some .IS_FORBIDDEN) :
+    ∃ hh, segLevel kannRes p soll = .ok (.IS_OPTIONAL, hh) :=
+  ⟨none, segLevel_kann p soll hp hf⟩
+
+theorem foldl_offered_kannify (es : List PoolEntry) (init : List (String × String)) :
+    ((es.map kannifyEntry).filter entryOffered).foldl (fun d e => dictInsert d e.qualifier e.meaning) init =
+      (es.filter entryOffered).foldl (fun d e => dictInsert d e.qualifier e.meaning) init := by
+  induction es generalizing init with
+  | nil => rfl
+  | cons e es ih =>
+    simp only [List.map_cons, List.filter_cons, entryOffered_kannify]
+    cases entryOffered e with
+    | false => exact ih init
+    | true => exact ih _
+
+/-- **C16 (pool entries).** An invalid value-pool entry is offered exactly as if its expression were `Kann`. -/
+theorem C16_pool (es : List PoolEntry) (st : RVV) : offered (es.map kannifyEntry) st = offered es st := by
+  unfold offered
+  by_cases hf : st = .IS_FORBIDDEN
+  · simp only [if_pos hf]
+  · simp only [if_neg hf]
+    match es with
+    | [] => rfl
+    | [e] => rfl
+    | e :: e' :: es => exact foldl_offered_kannify (e :: e' :: es) []
+
+theorem de_mask (S : List String) (de : DataElement) (st : RVV) (soll : Bool) (hst : st.isBase = true)
+    (hf : st ≠ .IS_FORBIDDEN) (hS : ∀ x ∈ invalidDE de, S.contains x = true) :
+    (validateDataElement de st soll).map (mask S) = (validateDataElement (kannifyDE de) st soll).map (mask S) := by
+  cases de with
+  | pool d es i =>
+    simp only [kannifyDE, validateDataElement, C16_pool]
+  | free d res i v =>
+    cases res with
+    | ok r => rfl
+    | invalid msg =>
+      have hd : S.contains d = true := hS d (by simp [invalidDE, isInvalid])
+      have hc : combine (some st) .IS_OPTIONAL = .val .IS_OPTIONAL :=
+        kann_combine (some st) hst (fun h => hf (Option.some.inj h))
+      obtain ⟨w, hw⟩ := suffix_base .IS_OPTIONAL (truthyStr i) rfl
+      simp only [kannifyDE, kannify, kannRes, validateDataElement, kann_own, liftT_val, ok_bind, hc, hw, pure_eq_ok, map_ok,
+        mask, hd, if_true]
+
+theorem seg_mask (S : List String) (s : Segment) (p : Option RVV) (soll : Bool) (hp : okParent p = true)
+    (hS : ∀ x ∈ invalidSeg s, S.contains x = true) :
+    (validateSegment s p soll).map (List.map (mask S)) =
+      (validateSegment (kannifySeg s) p soll).map (List.map (mask S)) := by
+  obtain ⟨d, res, des⟩ := s
+  simp only [validateSegment, kannifySeg]
+  have hd : isInvalid res = true → S.contains d = true := fun hi => hS d (by simp [invalidSeg, hi])
+  have hdes : ∀ de ∈ des, ∀ x ∈ invalidDE de, S.contains x = true := fun de hde x hx =>
+    hS x (by simp only [invalidSeg, List.mem_append, List.mem_flatMap]; exact .inr ⟨de, hde, hx⟩)
+  rcases segLevel_kannify res p soll hp with ⟨e, h1, h2⟩ | ⟨st, h, h', h1, h2, hb, hh⟩
+  · rw [h1, h2]; rfl
+  · rw [h1, h2]
+    simp only [ok_bind]
+    by_cases hf : st = .IS_FORBIDDEN
+    · simp only [if_pos hf, pure_eq_ok, ok_bind, map_ok, List.map_cons, List.map_nil]
+      rw [mask_segOut S d _ h h' hh hd]
+    · simp only [if_neg hf]
+      apply bind_congr_map (List.map (mask S)) (List.map (mask S)) _ _ _ _
+        (mapM_congr_map _ _ kannifyDE (mask S) des (fun de hde => de_mask S de st soll hb hf (hdes de hde)))
+      intro a b hab
+      simp only [pure_eq_ok, map_ok, List.map_cons, hab]
+      rw [mask_segOut S d _ h h' hh hd]
+
+mutual
+theorem group_mask (S : List String) : ∀ (g : Group) (p : Option RVV) (soll : Bool), okParent p = true →
+    (∀ x ∈ invalidGroup g, S.contains x = true) →
+    (validateGroup g p soll).map (List.map (mask S)) =
+      (validateGroup (kannifyGroup g) p soll).map (List.map (mask S))
+  | .mk d res gs ss, p, soll, hp, hS => by
+    simp only [validateGroup, kannifyGroup]
+    have hd : isInvalid res = true → S.contains d = true := fun hi => hS d (by simp [invalidGroup, hi])
+    have hgs : ∀ x ∈ invalidGroups gs, S.contains x = true := fun x hx =>
+      hS x (by simp only [invalidGroup, List.mem_append]; exact .inl (.inr hx))
+    have hss : ∀ s ∈ ss, ∀ x ∈ invalidSeg s, S.contains x = true := fun s hs x hx =>
+      hS x (by simp only [invalidGroup, List.mem_append, List.mem_flatMap]; exact .inr ⟨s, hs, hx⟩)
+    rcases segLevel_kannify res p soll hp with ⟨e, h1, h2⟩ | ⟨st, h, h', h1, h2, hb, hh⟩
+    · rw [h1, h2]; rfl
+    · rw [h1, h2]
+      simp only [ok_bind]
+      by_cases hf : st = .IS_FORBIDDEN
+      · simp only [if_pos hf, pure_eq_ok, map_ok, List.map_cons, List.map_nil]
+        rw [mask_segOut S d _ h h' hh hd]
+      · simp only [if_neg hf]
+        apply bind_congr_map (List.map (mask S)) (List.map (mask S)) _ _ _ _
+          (groups_mask S gs (some st) soll hb hgs)
+        intro a b hab
+        apply bind_congr_map (List.map (List.map (mask S))) (List.map (mask S)) _ _ _ _
+          (mapM_congr_map _ _ kannifySeg (List.map (mask S)) ss
+            (fun s hs => seg_mask S s (some st) soll hb (hss s hs)))
+        intro a' b' hab'
+        simp only [pure_eq_ok, map_ok, List.map_cons, List.map_append, List.map_flatten, hab, hab']
+        rw [mask_segOut S d _ h h' hh hd]
+theorem groups_mask (S : List String) : ∀ (gs : Groups) (p : Option RVV) (soll : Bool), okParent p = true →
+    (∀ x ∈ invalidGroups gs, S.contains x = true) →
+    (validateGroups gs p soll).map (List.map (mask S)) =
+      (validateGroups (kannifyGroups gs) p soll).map (List.map (mask S))
+  | .nil, p, soll, hp, hS => by
+    simp only [validateGroups, kannifyGroups]
+  | .cons g gs, p, soll, hp, hS => by
+    simp only [validateGroups, kannifyGroups]
+    have hg : ∀ x ∈ invalidGroup g, S.contains x = true := fun x hx =>
+      hS x (by simp only [invalidGroups, List.mem_append]; exact .inl hx)
+    have hgs : ∀ x ∈ invalidGroups gs, S.contains x = true := fun x hx =>
+      hS x (by simp only [invalidGroups, List.mem_append]; exact .inr hx)
+    apply bind_congr_map (List.map (mask S)) (List.map (mask S)) _ _ _ _ (group_mask S g p soll hp hg)
+    intro a b hab
+    apply bind_congr_map (List.map (mask S)) (List.map (mask S)) _ _ _ _ (groups_mask S gs p soll hp hgs)
+    intro a' b' hab'
+    simp only [pure_eq_ok, map_ok, List.map_append, hab, hab']
+end
+
+/-- **C16 (every other node).** For any set of nodes carrying invalid expressions — simultaneously — the results of all other nodes are
+identical to the results for the AHB with `Kann` in their place; in particular one run aborts iff the other does. -/
+theorem C16_others (lines : Groups) (soll : Bool) :
+    (validateAhb lines soll).map (List.map (mask (invalidGroups lines))) =
+      (validateAhb (kannifyGroups lines) soll).map (List.map (mask (invalidGroups lines))) := by
+  unfold validateAhb
+  exact groups_mask (invalidGroups lines) lines none soll rfl (fun x hx => by
+    simpa using hx)
+
 end Ahbicht.Properties.C16
+
